@@ -1,2 +1,267 @@
-/-! placeholder driver (property C07 not built yet) -/
-def main : IO Unit := IO.println "bad-op"
+import LlgoVerif.Util
+import LlgoVerif.Model.GoType
+import LlgoVerif.Model.Iface
+import LlgoVerif.Spec.TypeIdent
+/-! Line-protocol driver for C07 (executable only; SHA-256 and base64url live here, not in any theorem).
+
+Type terms (prefix notation, blank separated; `H` = hex of UTF-8 bytes, `-` = empty, `~` = absent):
+```
+B kind | P t | S t | A n t | M k v | C d t            (d: 0 chan, 1 chan<-, 2 <-chan)
+F variadic np nr t…                                     params then results
+T n (nameH pkgH|~ emb tagH t)…                          struct
+I n (nameH pkgH|~ sig)…                                 interface
+N decl pkgH|~ nameH scope ntargs t…                     scope: g | s:i.j.k (innermost first) | p:pos
+L nameH t                                               alias
+```
+Requests:
+* `name T`                → `ok <hex TypeName>` | `unsupported`
+* `pair T | T`            → `<hex name1> <hex name2> <identical 0/1>` (names `unsupported` when not covered)
+* `impl t:(nameH typ ifn)… | v:(…)` or `| none`   → `<implScan> <newItabOk> <spec>`
+* `find v:(…) | nameH typ` → `<ifn> <matched>`
+* `implspec MSET | T`     → `<implements 0/1>`   (MSET is an `I` term holding the method set)
+* `closure tid tclosure tf0 | vid vclosure vf0` or `| none` → `<matchesClosure>`
+* `sha H`                 → base64url(sha256) (self test)
+-/
+open LlgoVerif LlgoVerif.Util LlgoVerif.Types
+
+/-! ## SHA-256 + base64 RawURLEncoding -/
+
+def shaK : Array UInt32 := #[
+  0x428a2f98, 0x71374491, 0xb5c0fbcf, 0xe9b5dba5, 0x3956c25b, 0x59f111f1, 0x923f82a4, 0xab1c5ed5,
+  0xd807aa98, 0x12835b01, 0x243185be, 0x550c7dc3, 0x72be5d74, 0x80deb1fe, 0x9bdc06a7, 0xc19bf174,
+  0xe49b69c1, 0xefbe4786, 0x0fc19dc6, 0x240ca1cc, 0x2de92c6f, 0x4a7484aa, 0x5cb0a9dc, 0x76f988da,
+  0x983e5152, 0xa831c66d, 0xb00327c8, 0xbf597fc7, 0xc6e00bf3, 0xd5a79147, 0x06ca6351, 0x14292967,
+  0x27b70a85, 0x2e1b2138, 0x4d2c6dfc, 0x53380d13, 0x650a7354, 0x766a0abb, 0x81c2c92e, 0x92722c85,
+  0xa2bfe8a1, 0xa81a664b, 0xc24b8b70, 0xc76c51a3, 0xd192e819, 0xd6990624, 0xf40e3585, 0x106aa070,
+  0x19a4c116, 0x1e376c08, 0x2748774c, 0x34b0bcb5, 0x391c0cb3, 0x4ed8aa4a, 0x5b9cca4f, 0x682e6ff3,
+  0x748f82ee, 0x78a5636f, 0x84c87814, 0x8cc70208, 0x90befffa, 0xa4506ceb, 0xbef9a3f7, 0xc67178f2]
+
+@[inline] def rotr (x : UInt32) (n : UInt32) : UInt32 := (x >>> n) ||| (x <<< (32 - n))
+
+def shaPad (msg : ByteArray) : ByteArray := Id.run do
+  let bitLen : UInt64 := msg.size.toUInt64 * 8
+  let mut m := msg.push 0x80
+  while m.size % 64 != 56 do
+    m := m.push 0
+  for i in [0:8] do
+    m := m.push ((bitLen >>> (8 * (7 - i)).toUInt64).toUInt8)
+  return m
+
+def sha256 (msg : ByteArray) : ByteArray := Id.run do
+  let m := shaPad msg
+  let mut h : Array UInt32 := #[0x6a09e667, 0xbb67ae85, 0x3c6ef372, 0xa54ff53a, 0x510e527f, 0x9b05688c, 0x1f83d9ab, 0x5be0cd19]
+  for blk in [0:m.size / 64] do
+    let mut w : Array UInt32 := Array.replicate 64 0
+    for i in [0:16] do
+      let b := blk * 64 + i * 4
+      w := w.set! i ((m.get! b).toUInt32 <<< 24 ||| (m.get! (b+1)).toUInt32 <<< 16 ||| (m.get! (b+2)).toUInt32 <<< 8 ||| (m.get! (b+3)).toUInt32)
+    for i in [16:64] do
+      let w15 := w[i-15]!
+      let w2 := w[i-2]!
+      let s0 := rotr w15 7 ^^^ rotr w15 18 ^^^ (w15 >>> 3)
+      let s1 := rotr w2 17 ^^^ rotr w2 19 ^^^ (w2 >>> 10)
+      w := w.set! i (w[i-16]! + s0 + w[i-7]! + s1)
+    let mut a := h[0]!
+    let mut b := h[1]!
+    let mut c := h[2]!
+    let mut d := h[3]!
+    let mut e := h[4]!
+    let mut f := h[5]!
+    let mut g := h[6]!
+    let mut hh := h[7]!
+    for i in [0:64] do
+      let s1 := rotr e 6 ^^^ rotr e 11 ^^^ rotr e 25
+      let ch := (e &&& f) ^^^ ((~~~ e) &&& g)
+      let t1 := hh + s1 + ch + shaK[i]! + w[i]!
+      let s0 := rotr a 2 ^^^ rotr a 13 ^^^ rotr a 22
+      let mj := (a &&& b) ^^^ (a &&& c) ^^^ (b &&& c)
+      let t2 := s0 + mj
+      hh := g; g := f; f := e; e := d + t1; d := c; c := b; b := a; a := t1 + t2
+    h := #[h[0]! + a, h[1]! + b, h[2]! + c, h[3]! + d, h[4]! + e, h[5]! + f, h[6]! + g, h[7]! + hh]
+  let mut out := ByteArray.empty
+  for x in h do
+    out := out.push (x >>> 24).toUInt8
+    out := out.push (x >>> 16).toUInt8
+    out := out.push (x >>> 8).toUInt8
+    out := out.push x.toUInt8
+  return out
+
+def b64Alphabet : Array Char := "ABCDEFGHIJKLMNOPQRSTUVWXYZabcdefghijklmnopqrstuvwxyz0123456789-_".toList.toArray
+
+/-- base64.RawURLEncoding -/
+def b64url (bs : ByteArray) : List Char := Id.run do
+  let mut out : Array Char := #[]
+  let n := bs.size
+  let mut i := 0
+  while i + 3 ≤ n do
+    let v := (bs.get! i).toNat * 65536 + (bs.get! (i+1)).toNat * 256 + (bs.get! (i+2)).toNat
+    out := out.push b64Alphabet[v / 262144 % 64]!
+    out := out.push b64Alphabet[v / 4096 % 64]!
+    out := out.push b64Alphabet[v / 64 % 64]!
+    out := out.push b64Alphabet[v % 64]!
+    i := i + 3
+  if n - i == 1 then
+    let v := (bs.get! i).toNat * 65536
+    out := out.push b64Alphabet[v / 262144 % 64]!
+    out := out.push b64Alphabet[v / 4096 % 64]!
+  else if n - i == 2 then
+    let v := (bs.get! i).toNat * 65536 + (bs.get! (i+1)).toNat * 256
+    out := out.push b64Alphabet[v / 262144 % 64]!
+    out := out.push b64Alphabet[v / 4096 % 64]!
+    out := out.push b64Alphabet[v / 64 % 64]!
+  return out.toList
+
+/-- the text-level hash `nameC` is parameterised by -/
+def hashText (cs : List Char) : List Char := b64url (sha256 (String.ofList cs).toUTF8)
+
+/-! ## term parser -/
+
+def strOfHex (h : String) : Option Str := do
+  let bs ← unhex h
+  let s ← String.fromUTF8? bs.toByteArray
+  pure s.toList
+
+def optStrOfHex (h : String) : Option (Option Str) :=
+  if h = "~" then some none else (strOfHex h).map some
+
+def hexOfStr (s : Str) : String := hex (String.ofList s).toUTF8.data.toList
+
+def basicOfName : String → Option BasicKind
+  | "bool" => some .bool | "int" => some .int | "int8" => some .int8 | "int16" => some .int16
+  | "int32" => some .int32 | "int64" => some .int64 | "uint" => some .uint | "uint8" => some .uint8
+  | "uint16" => some .uint16 | "uint32" => some .uint32 | "uint64" => some .uint64 | "uintptr" => some .uintptr
+  | "float32" => some .float32 | "float64" => some .float64 | "complex64" => some .complex64
+  | "complex128" => some .complex128 | "string" => some .string | "unsafe.Pointer" => some .unsafePointer
+  | "byte" => some .byte | "rune" => some .rune
+  | _ => none
+
+def scopeOf (s : String) : Option Scope :=
+  if s = "g" then some .pkg
+  else if s.startsWith "s:" then
+    let body := (s.drop 2).toString
+    if body = "" then some (.path [])
+    else ((body.splitOn ".").mapM String.toNat?).map Scope.path
+  else if s.startsWith "p:" then (s.drop 2).toString.toNat?.map Scope.pos
+  else none
+
+mutual
+partial def parseT : List String → Option (GoType × List String)
+  | "B" :: k :: r => (basicOfName k).map fun b => (.basic b, r)
+  | "P" :: r => do let (t, r) ← parseT r; pure (.pointer t, r)
+  | "S" :: r => do let (t, r) ← parseT r; pure (.slice t, r)
+  | "A" :: n :: r => do let n ← n.toNat?; let (t, r) ← parseT r; pure (.array n t, r)
+  | "M" :: r => do let (k, r) ← parseT r; let (v, r) ← parseT r; pure (.map k v, r)
+  | "C" :: d :: r => do
+    let d ← (match d with | "0" => some ChanDir.both | "1" => some .send | "2" => some .recv | _ => none)
+    let (t, r) ← parseT r; pure (.chan d t, r)
+  | "F" :: v :: np :: nr :: r => do
+    let np ← np.toNat?; let nr ← nr.toNat?
+    let (ps, r) ← parseTL np r; let (rs, r) ← parseTL nr r
+    pure (.func ps rs (v == "1"), r)
+  | "T" :: n :: r => do let n ← n.toNat?; let (fs, r) ← parseFL n r; pure (.struct fs, r)
+  | "I" :: n :: r => do let n ← n.toNat?; let (ms, r) ← parseML n r; pure (.iface ms, r)
+  | "N" :: d :: pkg :: name :: sc :: nt :: r => do
+    let d ← d.toNat?; let pkg ← optStrOfHex pkg; let name ← strOfHex name; let sc ← scopeOf sc
+    let nt ← nt.toNat?; let (ts, r) ← parseTL nt r
+    pure (.named d pkg name sc ts, r)
+  | "L" :: name :: r => do let name ← strOfHex name; let (t, r) ← parseT r; pure (.alias name t, r)
+  | _ => none
+partial def parseTL : Nat → List String → Option (TList × List String)
+  | 0, r => some (.nil, r)
+  | n+1, r => do let (t, r) ← parseT r; let (ts, r) ← parseTL n r; pure (.cons t ts, r)
+partial def parseFL : Nat → List String → Option (FList × List String)
+  | 0, r => some (.nil, r)
+  | n+1, name :: pkg :: emb :: tag :: r => do
+    let name ← strOfHex name; let pkg ← optStrOfHex pkg; let tag ← strOfHex tag
+    let (t, r) ← parseT r; let (fs, r) ← parseFL n r
+    pure (.cons name pkg (emb == "1") tag t fs, r)
+  | _, _ => none
+partial def parseML : Nat → List String → Option (MList × List String)
+  | 0, r => some (.nil, r)
+  | n+1, name :: pkg :: r => do
+    let name ← strOfHex name; let pkg ← optStrOfHex pkg
+    let (t, r) ← parseT r; let (ms, r) ← parseML n r
+    pure (.cons name pkg t ms, r)
+  | _, _ => none
+end
+
+def parseWhole (toks : List String) : Option GoType :=
+  match parseT toks with
+  | some (t, []) => some t
+  | _ => none
+
+def splitBar (toks : List String) : List String × List String :=
+  (toks.takeWhile (· ≠ "|"), (toks.dropWhile (· ≠ "|")).drop 1)
+
+def nameOut (t : GoType) : String :=
+  if supported t then hexOfStr (nameC hashText false t) else "unsupported"
+
+/-! ## method tables -/
+
+def parseEnts : List String → Option (List Face.Ent)
+  | [] => some []
+  | n :: t :: f :: r => do
+    let n ← unhex n; let t ← t.toNat?; let f ← f.toNat?
+    let rest ← parseEnts r
+    pure ({ name := n.map (·.toNat), typ := t, ifn := f } :: rest)
+  | _ => none
+
+def bstr (b : Bool) : String := if b then "1" else "0"
+
+def specDec (t v : List Face.Ent) : Bool := t.all fun e => v.any fun m => m.name == e.name && m.typ == e.typ
+
+def parseDesc : List String → Option Face.Desc
+  | [a, b, c] => do pure { id := (← a.toNat?), closure := b == "1", field0 := (← c.toNat?) }
+  | _ => none
+
+def handle (line : String) : String :=
+  match fields line with
+  | "name" :: toks =>
+    match parseWhole toks with
+    | some t => if supported t then "ok " ++ hexOfStr (nameC hashText false t) else "unsupported"
+    | none => "bad-op"
+  | "pair" :: toks =>
+    let (a, b) := splitBar toks
+    match parseWhole a, parseWhole b with
+    | some t1, some t2 => nameOut t1 ++ " " ++ nameOut t2 ++ " " ++ bstr (identical t1 t2)
+    | _, _ => "bad-op"
+  | "impl" :: toks =>
+    let (a, b) := splitBar toks
+    match parseEnts a with
+    | some t =>
+      if b = ["none"] then bstr (Face.implScan t none) ++ " " ++ bstr (Face.newItabOk t none) ++ " " ++ bstr t.isEmpty
+      else match parseEnts b with
+        | some v => bstr (Face.implScan t (some v)) ++ " " ++ bstr (Face.newItabOk t (some v)) ++ " " ++ bstr (specDec t v)
+        | none => "bad-op"
+    | none => "bad-op"
+  | "find" :: toks =>
+    let (a, b) := splitBar toks
+    match parseEnts a, b with
+    | some v, [n, t] =>
+      match unhex n, t.toNat? with
+      | some n, some t =>
+        let r := Face.findMethod v { name := n.map (·.toNat), typ := t }
+        toString r.1 ++ " " ++ bstr r.2
+      | _, _ => "bad-op"
+    | _, _ => "bad-op"
+  | "implspec" :: toks =>
+    let (a, b) := splitBar toks
+    match parseWhole a, parseWhole b with
+    | some (.iface ms), some i => bstr (implements ms i)
+    | _, _ => "bad-op"
+  | "closure" :: toks =>
+    let (a, b) := splitBar toks
+    match parseDesc a with
+    | some t =>
+      if b = ["none"] then bstr (Face.matchesClosure t none)
+      else match parseDesc b with
+        | some v => bstr (Face.matchesClosure t (some v))
+        | none => "bad-op"
+    | none => "bad-op"
+  | ["sha", h] =>
+    match unhex h with
+    | some bs => String.ofList (b64url (sha256 bs.toByteArray))
+    | none => "bad-op"
+  | _ => "bad-op"
+
+def main : IO Unit := lineLoop handle
